@@ -519,7 +519,13 @@ def canon_nc(nc, root, table, problems):
         except codec.OutOfModel:
             anc.append([apa, ["?", repr(aref)]])
     out["anc"] = anc
-    out["path"] = str(nc.path) if nc.path is not None else None
+    try:
+        out["path"] = str(nc.path) if nc.path is not None else None
+    except Timeout:
+        raise
+    except Exception:  # the reported path does not even parse
+        out["path"] = None
+        problems.append("reported-path-does-not-parse")
     return out
 
 
